@@ -51,3 +51,6 @@ func VerifConstants() (nonceInitHello_, nonceRespHello_, nonceInitDone_, nonceRe
 func (c *Channel) VerifTimersPending() (rekey, handshake bool) {
 	return c.rekeyTimer.IsPending(), c.handshakeTimer.IsPending()
 }
+
+// VerifHandshakeAttempts is the number of retransmission intervals after which a prospective session is given up.
+func VerifHandshakeAttempts() int { return handshakeAttempts }
